@@ -1,6 +1,6 @@
 (* C11: funding settles on schedule, exactly.  Statements only. *)
 From MP.Model Require Import Prelude U128 SInt Feed Vamm VammOps Token World Engine Runtime.
-From MP.Proofs Require Import Tactics SIntFacts EngineGuards EngineArith MoreFacts.
+From MP.Proofs Require Import Tactics SIntFacts EngineGuards EngineArith MoreFacts FundingTxFacts Scenario.
 
 Theorem C11_too_early_fails : forall v e s o, now e < v_next_funding (vs v) -> exists er, settle_funding v e s o = Err er.
 Proof. exact settle_funding_too_early. Qed.
@@ -58,3 +58,51 @@ Theorem C11_trade_charges_once : forall w i o id w' subs tm,
     funding_owed w' v p' = 0.
 Proof. exact update_position_reply_funding. Qed.
 Print Assumptions C11_trade_charges_once.
+
+(* END TO END.  A successful PayFunding transaction (vAMM settlement, engine reply, the transfer; any fault
+   index) advances the cumulative premium fraction by exactly the fraction the vAMM computed, and with
+   payment = trunc(net position x fraction / D) moves exactly |payment| of collateral: from the vault to the
+   insurance fund when positive (capped at the vault's balance), from the insurance fund to the vault when
+   negative, nothing when zero; no other account's balance changes.  Side conditions: both TWAPs
+   non-negative, the fund pays the engine, the engine's fund address is the fund. *)
+Theorem C11_pay_funding_tx : forall f w s v w' vm,
+  exec_op f w (OEngine s (EPayFunding v) 0) = Ok w' ->
+  get_vamm w v = Ok vm -> wf0 (v_total (vs vm)) -> cpf_wf (w_eng w) v -> 0 < e_dec (ec (w_eng w)) ->
+  (forall x, o_twap (oracle_of w vm) (v_twap_interval (vc vm)) = Ok x -> 0 <= x) ->
+  (forall x, q_twap_price vm (w_env w) (v_twap_interval (vc vm)) = Ok x -> 0 <= x) ->
+  0 <= v_fperiod (vc vm) ->
+  if_engine (w_if w) = A_ENGINE -> e_ifund (ec (w_eng w)) = A_IFUND ->
+  exists vm' pf, settle_funding vm (w_env w) A_ENGINE (oracle_of w vm) = Ok (vm', pf) /\
+    toZ (cumulative_premium_fraction (w_eng w') v) = toZ (cumulative_premium_fraction (w_eng w) v) + toZ pf /\
+    let payment := Z.quot (toZ (v_total (vs vm)) * toZ pf) (e_dec (ec (w_eng w))) in
+    let moved := if payment <? 0 then payment else if 0 <? payment then Z.min (bal (w_tok w) A_ENGINE) payment else 0 in
+    bal (w_tok w') A_ENGINE = bal (w_tok w) A_ENGINE - moved /\
+    bal (w_tok w') A_IFUND = bal (w_tok w) A_IFUND + moved /\
+    forall a, a <> A_ENGINE -> a <> A_IFUND -> bal (w_tok w') a = bal (w_tok w) a.
+Proof. exact pay_funding_tx. Qed.
+Print Assumptions C11_pay_funding_tx.
+
+(* non-vacuity: in the concrete scenario, after the funding time has passed and the oracle price was moved,
+   PayFunding by a stranger succeeds, every premise holds, and collateral moves between vault and fund *)
+Definition c11_example : bool :=
+  match scenario with
+  | Ok w0 =>
+      let w := run w0 [OBlock 4000 1; OFeed 1 (PAppend 9000000 5030)] in
+      match zfind 11 (w_vamms w) with
+      | Some vm =>
+          let nonneg r := match r with Ok x => 0 <=? x | Err _ => true end in
+          wf0b (v_total (vs vm)) && wf0b (cumulative_premium_fraction (w_eng w) 11) && (0 <? e_dec (ec (w_eng w))) &&
+          nonneg (o_twap (oracle_of w vm) (v_twap_interval (vc vm))) &&
+          nonneg (q_twap_price vm (w_env w) (v_twap_interval (vc vm))) && (0 <=? v_fperiod (vc vm)) &&
+          (if_engine (w_if w) =? A_ENGINE) && (e_ifund (ec (w_eng w)) =? A_IFUND) &&
+          match exec_op (-1) w (OEngine 41 (EPayFunding 11) 0) with
+          | Ok w' => negb (bal (w_tok w') A_ENGINE =? bal (w_tok w) A_ENGINE) &&
+                     (bal (w_tok w') A_ENGINE + bal (w_tok w') A_IFUND =? bal (w_tok w) A_ENGINE + bal (w_tok w) A_IFUND)
+          | Err _ => false
+          end
+      | None => false
+      end
+  | Err _ => false
+  end.
+Example C11_nonvacuous : c11_example = true.
+Proof. vm_compute. reflexivity. Qed.
